@@ -207,4 +207,37 @@ PySliceIdx(n, lo, hi, step) ==
 SliceGenT(t, lo, hi, step) == Ok(SubRows(t, PySliceIdx(NR(t), lo, hi, step)))
 MaskSeqT(t, mk) == Ok(SubRows(t, SelectSeq([i \in 1..NR(t) |-> i], LAMBDA i : mk[i])))
 
+\* ---- n-ary concatenation ------------------------------------------------------------------------
+\* dictable.concat(x1, ..., xn) / dictable.concat([x1, ..., xn]) with three or more operands in ONE call (tables and single
+\* records mixed): the rows of x1, then those of x2, ... in order; the columns are the union; a row that comes from an operand
+\* without a column has None there - wherever in the list that operand stands (a column may appear, disappear and reappear).
+\* An operand is <<"r", register, <<>>>> (a table of the session) or <<"rec", "", record>> (a dict = one row).
+RECURSIVE UnionColsFrom(_, _, _)
+UnionColsFrom(acc, ts, k) == IF k > Len(ts) THEN acc ELSE UnionColsFrom(acc \o SelectSeq(ts[k].cols, LAMBDA x : x \notin Range(acc)), ts, k + 1)
+UnionCols(ts) == UnionColsFrom(<<>>, ts, 1)
+ConcatManyT(ts) == LET cs == UnionCols(ts)
+                       pad(r, have) == [cc \in Range(cs) |-> IF cc \in have THEN r[cc] ELSE None] IN
+                   Ok(Tbl(cs, IF cs = <<>> THEN <<>> ELSE FlattenSeq([k \in 1..Len(ts) |-> [i \in 1..NR(ts[k]) |-> pad(ts[k].rows[i], ColSet(ts[k]))]])))
+\* the chained binary form ((x1 + x2) + x3) + ... ; ConcatNLaw (Dictable.tla) says the two are the same table
+RECURSIVE ConcatChainFrom(_, _, _)
+ConcatChainFrom(acc, ts, k) == IF k > Len(ts) THEN acc ELSE ConcatChainFrom(ConcatT(acc, ts[k]).t, ts, k + 1)
+ConcatChainT(ts) == Ok(ConcatChainFrom(ts[1], ts, 2))
+RecMenu == <<<<<<"a", V2>>>>, <<<<"b", VX>>, <<"a", None>>>>>>         \* a record without b, a record with b
+OperandSet(regs) == {<<"r", r, <<>>>> : r \in regs} \cup {<<"rec", "", RecMenu[k]>> : k \in 1..Len(RecMenu)}
+SeqsOf(S, n) == [1..n -> S]
+
+\* ---- size: the same rows many times -------------------------------------------------------------
+\* TLC cannot enumerate tables of 65 or 260 rows; recorded histories on such tables are judged by the trace specification
+\* with the very same operators.  A big table is a small pattern scaled up: row i (1-based) of BigT(t, n, b) is row
+\* (((i - 1) div b) mod p) + 1 of the p-row pattern t - b = 1: the pattern repeated (t t t ...), b > 1: every row b times in
+\* a row (interleaved blocks); n need not be a multiple of p.  A mask / an assigned column is a short pattern cycled to length n.
+\* The SCALING LAWS (ScaleLaws in Dictable.tla, checked by TLC on small tables, k = 2, 3 copies): the outcome of a row-selecting
+\* or row-wise call on k copies of the rows is k copies of its outcome on the rows, in order.
+CycleTo(pat, n) == [i \in 1..n |-> pat[((i - 1) % Len(pat)) + 1]]
+BigRows(rows, n, b) == [i \in 1..n |-> rows[(((i - 1) \div b) % Len(rows)) + 1]]
+BigT(t, n, b) == IF NR(t) = 0 THEN t ELSE Tbl(t.cols, BigRows(t.rows, n, b))
+CopiesT(t, k) == BigT(t, k * NR(t), 1)
+\* d[c] = pattern cycled to the length of the table (an empty pattern is the empty list)
+CycArg(pat, n) == <<"l", IF pat = <<>> THEN <<>> ELSE CycleTo(pat, n)>>
+
 =============================================================================
